@@ -58,6 +58,12 @@ def routing_case(draw, broker):
         backlog = [{"id": f"f{i}", "name": "zz_unknown", "queue": q, "at": 0.0, "retries": 0, "delay_ms": 0, "first": True}
                    for i in range(draw(st.sampled_from([9, 10, 11, 20, 25])))]
         jobs = backlog + jobs
+    if draw(st.integers(0, 3)) == 0:
+        # one message in the shared traffic has a time-to-live that ran out before any worker saw it (whoever meets it dead-letters
+        # it; it is not judged here) - the messages around it are owed exactly what they are owed without it
+        k = draw(st.integers(0, len(jobs)))
+        jobs.insert(k, {"id": "x0", "name": draw(st.sampled_from(NAMES + ["zz_unknown"])), "queue": draw(st.sampled_from(QUEUES)),
+                        "at": 0.0, "retries": 0, "delay_ms": 0, "expired": True, "first": True})
     case = {"broker": broker, "seed": draw(st.integers(0, 2**16)), "routers": routers, "workers": workers, "jobs": jobs}
     if broker != "mem":
         case["lat"] = draw(st.lists(st.sampled_from([0.0, 0.001, 0.002]), max_size=15))
@@ -153,7 +159,12 @@ async def _routing(loop, case, out: Outcome):
         if j.get("delay_ms"):
             extra["deferred_until"] = vclock.VDateTime.now() + timedelta(milliseconds=j["delay_ms"])
             due[j["id"]] = loop.time() + j["delay_ms"] / 1000
-        enq[j["id"]] = await Job(j["name"], queue=j["queue"], id_=j["id"], retries=j["retries"], _connection=prod, **extra).enqueue()
+        if j.get("expired"):
+            extra["ttl"] = timedelta(seconds=1)
+        job = Job(j["name"], queue=j["queue"], id_=j["id"], retries=j["retries"], _connection=prod, **extra)
+        if j.get("expired"):
+            job.timestamp = vclock.VDateTime.now() - timedelta(seconds=5)  # (created a while ago, enqueued only now)
+        enq[j["id"]] = await job.enqueue()
 
     for j in case["jobs"]:
         if j.get("first"):
@@ -177,7 +188,7 @@ async def _routing(loop, case, out: Outcome):
             if a is not None and a["queue"] == j["queue"]:
                 regs.add(a["reg"])
         expect[j["id"]] = regs
-    own = [j["id"] for j in case["jobs"] if expect[j["id"]]]
+    own = [j["id"] for j in case["jobs"] if expect[j["id"]] and not j.get("expired")]
     bound = 2.0 + 1.5 + len([j for j in case["jobs"] if not j.get("first")]) * 1.2 + (3.5 if any(j.get("delay_ms") for j in case["jobs"]) else 0.0)
     while loop.time() < bound:
         await asyncio.sleep(0.1)
@@ -206,6 +217,8 @@ async def _routing(loop, case, out: Outcome):
         rs = [r for r in runs if r[0] == id_]
         places = pr.get(id_, [])
         tag = f"job {id_} (name {j['name']!r}, queue {j['queue']!r})"
+        if j.get("expired"):
+            continue  # (what becomes of an expired message is C12's business)
         if expect[id_]:
             if len(rs) == 0:
                 # RabbitMQ filters topics by reject+requeue: is some message of this queue foreign to a worker consuming it?
@@ -240,7 +253,7 @@ async def _routing(loop, case, out: Outcome):
             elif places[0].queue != j["queue"] or (places[0].params is not None and places[0].params != enq[id_][2]):
                 out.v("foreign-changed", f"{tag}: changed while no worker served it: {places[0]}")
     # foreign messages stay available to other workers: a later consumer for the topic gets them
-    leftovers = [j for j in case["jobs"] if not expect[j["id"]] and j["id"] in enq and not any(r[0] == j["id"] for r in runs)]
+    leftovers = [j for j in case["jobs"] if not expect[j["id"]] and not j.get("expired") and j["id"] in enq and not any(r[0] == j["id"] for r in runs)]
     if leftovers:
         j = leftovers[0]
         c = prod.message_broker.get_consumer(j["queue"], [j["name"]], None, MessageCategory.NORMAL)
